@@ -3,3 +3,4 @@ import Proofs.RunLoop
 import Proofs.Metadata
 import Proofs.Assign
 import Proofs.FileStore
+import Proofs.PathsStore
